@@ -1244,13 +1244,20 @@ func c11RunCase(r *Run, lines []string) *c11Case {
 		}
 		c.styles = append(c.styles, a)
 	}
-	if len(hdr) > 3 && hdr[3] == "x14" {
+	if len(hdr) > 3 && (hdr[3] == "x14" || hdr[3] == "x14t") {
 		// worksheet settings made before the stream writer is created: conditional formats incl. an x14 data bar
 		// (lives in the worksheet's extLst) — the stream writer carries the worksheet's fields over by reflection
 		c.x14 = true
 		for _, f := range []*xl.File{c.sf, c.mf} {
 			_ = f.SetConditionalFormat(c11Sheet, "A1:A3", []xl.ConditionalFormatOptions{{Type: "data_bar", Criteria: "=", MinType: "num", MaxType: "num", MinValue: "0", MaxValue: "10", BarColor: "#638EC6", BarBorderColor: "#0000FF", BarSolid: true}})
 			_ = f.SetConditionalFormat(c11Sheet, "B1:B3", []xl.ConditionalFormatOptions{{Type: "top", Criteria: "=", Value: "2"}})
+			if hdr[3] == "x14t" {
+				// … and a table the worksheet already has (its tableParts must end up in the same element as AddTable's)
+				_ = f.SetSheetRow(c11Sheet, "H1", &[]interface{}{"p", "q"})
+				_ = f.AddTable(c11Sheet, &xl.Table{Range: "H1:I3", Name: "Pre"})
+				_ = f.SetCellValue(c11Sheet, "H1", nil)
+				_ = f.SetCellValue(c11Sheet, "I1", nil)
+			}
 		}
 	}
 	sw, err := c.sf.NewStreamWriter(c11Sheet)
@@ -1674,6 +1681,9 @@ func c11witnesses() [][]string {
 		{"case model 1", "setrow " + hx("A1") + " - i1", "setrow " + hx("B1048576") + " 1,60,0,0 i2 s" + hx("last") + " n C1," + hx("A1+1") + ",n", "setrow " + hx("A1048577") + " - i3", "flush"},
 		// worksheet-level settings made before NewStreamWriter: the x14 half of a data bar lives in extLst
 		{"case rich 0 x14", "setrow " + hx("A1") + " - i1 i5", "setrow " + hx("A2") + " - i7 i3", "flush"},
+		{"case rich 0 x14", "setrow " + hx("A1") + " - s" + hx("h1") + " s" + hx("h2"), "setrow " + hx("A2") + " - i7 i3", "table " + hx("A1:B2"), "flush"},
+		{"case rich 0 x14t", "setrow " + hx("A1") + " - s" + hx("h1") + " s" + hx("h2"), "setrow " + hx("A2") + " - i7 i3", "table " + hx("A1:B2"), "flush"},
+		{"case rich 0 x14t", "setrow " + hx("A1") + " - i1", "flush"},
 		// row style x column style x cell style on the same cells (row beats column, cell beats both)
 		{"case model 3", "colstyle 2 4 1", "setrow " + hx("A1") + " 2,0,0,0 i1 i2 C3,-,i3 C0,-,i4 n i6", "setrow " + hx("B2") + " - i1 C3,-,i2 C0,-,i3 i4", "flush"},
 		// a rejected FIRST row after column widths and panes, then accepted rows
